@@ -10,7 +10,8 @@
    library on every run. *)
 From Coq Require Import Permutation.
 From Verif Require Import Lib.Bytes Json.Ast Json.Parse Json.Print Json.Render Json.NumFacts
-  Json.ParseComplete Json.CanonFacts Json.CanonC01 Json.CanonSpecC01 Json.C01Proofs Json.CanonFormProofs Json.ParseSound Json.PermFacts Gen.GenVersions.
+  Json.ParseComplete Json.CanonFacts Json.CanonC01 Json.CanonSpecC01 Json.C01Proofs Json.CanonFormProofs Json.ParseSound Json.PermFacts Crash.Outcome Json.CompactModelC01 Json.CompactProofsC01
+  Json.CompactValidC01 Gen.GenVersions.
 Open Scope N_scope.
 
 (* every presentation of a value is accepted by the reference parser and read as that value *)
@@ -123,6 +124,26 @@ Proof.
   repeat (destruct H as [<- | H]; [vm_compute; reflexivity |]). contradiction.
 Qed.
 
+(* ---- index safety of CompactJSON (byte-level model Json/CompactModelC01.v, compared with the real
+   CompactJSON through recover on valid and invalid inputs; these statements are exported for C18) *)
+Theorem compact_no_panic : forall t, json_valid t = true -> compact_model t <> Crash.
+Proof. exact CompactValidC01.compact_no_panic. Qed.
+
+Theorem compact_no_panic_on_renderings : forall v t, RendersText v t -> compact_model t <> Crash.
+Proof. exact compact_no_panic_renders. Qed.
+
+(* exactly which byte strings crash it: those the scanner compact_safe refuses *)
+Theorem compact_crashes_exactly_when_unsafe : forall t, compact_model t = Crash <-> compact_safe t = false.
+Proof. exact compact_crash_iff. Qed.
+
+Theorem valid_json_is_compact_safe : forall t, json_valid t = true -> compact_safe t = true.
+Proof. exact valid_compact_safe. Qed.
+
+(* readHexDigits: on four hex digits (either case) the bit trick is plain hex decoding *)
+Theorem read_hex_digits_is_hex_decoding : forall a b c d cp,
+  read_hex4 [a; b; c; d] = Some (cp, []) -> read_hex_digits [a; b; c; d] = cp.
+Proof. exact read_hex_digits_spec. Qed.
+
 (* ---------- non-vacuity ---------- *)
 Example ex_num_wf : num_wf (bs "-0").
 Proof.
@@ -202,5 +223,10 @@ Print Assumptions canon_print_respects.
 Print Assumptions enforced_rejects_non_integers.
 Print Assumptions enforced_accepts_safe_integers.
 Print Assumptions enforced_otherwise_canonical.
+Print Assumptions compact_no_panic.
+Print Assumptions compact_no_panic_on_renderings.
+Print Assumptions compact_crashes_exactly_when_unsafe.
+Print Assumptions valid_json_is_compact_safe.
+Print Assumptions read_hex_digits_is_hex_decoding.
 Print Assumptions enforced_versions_are_v6_plus.
 Print Assumptions enforcing_versions_all_registered.
